@@ -26,7 +26,7 @@ const (
 	// Waiting longer than this for an expected delivery is reported as a hang/missing delivery.
 	deliveryBound = 25 * time.Second
 	// caseBound: a whole case normally takes milliseconds.
-	caseBound = 150 * time.Second
+	caseBound = 45 * time.Second
 
 	baseTime = int64(1_700_000_000) // seconds; event number n has time baseTime+n
 )
@@ -113,7 +113,13 @@ func runBounded(cc *kit.Case, body func(x *ctx)) {
 				blocked = append(blocked, g)
 			}
 		}
-		x.fail("hang/case", "the case did not finish within %v; goroutines in the alert packages:\n%s", caseBound, strings.Join(blocked, "\n\n"))
+		sig := "hang/case"
+		all := strings.Join(blocked, "\n\n")
+		// the handler goroutine that is being drained needs the service lock its drainer holds
+		if strings.Contains(all, "alert.(*bufHandler).Close") && strings.Contains(all, "alert.(*publishHandler).Handle") && strings.Contains(all, "alert.(*Service).Collect") && strings.Contains(all, "RWMutex.RLock") {
+			sig = sigDrainDeadlock
+		}
+		x.fail(sig, "the case did not finish within %v; goroutines in the alert packages:\n%s", caseBound, all)
 	}
 	x.mu.Lock()
 	defer x.mu.Unlock()
@@ -247,6 +253,7 @@ type expEntry struct {
 type ledger struct {
 	rec      *recorder
 	exp      []expEntry
+	afterSig string // signature to use for a delivery after the registration ended, "" = delivery/after-deregistration
 	missSig  string // signature to use for a missing delivery (a more specific defect class), "" = delivery/missing
 	closed   bool   // the registration ended (deregistered / topic deleted): nothing more may arrive
 	verified int    // number of observations at the time the closed ledger was verified
